@@ -105,7 +105,7 @@ def run(prop, tier, seed, replay=None):
         meta = json.load(open(os.path.join(replay, "meta.json")))
         jobs = [(meta["seed"], meta["lookup"] + 1, meta["lookup"])]
     elif tier == "quick":
-        jobs = [(seed * 100 + i, 150, None) for i in range(4)]
+        jobs = [(seed * 100 + i, 250, None) for i in range(8)]
     else:
         jobs = [(seed * 100 + i, 1500, None) for i in range(16)]
     events = lookups = hangs = 0
